@@ -333,7 +333,7 @@ func Load(ctx context.Context, wd string, env []string, tags string, patterns []
 					})...)
 					continue
 				}
-				if errs := injectorCallErrors(fset, fn.Pos(), fn.Name.Name, calls, out, pkg.PkgPath); len(errs) > 0 {
+				if errs := injectorCallErrors(fset, fn.Pos(), fn.Name.Name, sig, calls, out, pkg.PkgPath); len(errs) > 0 {
 					ec.add(errs...)
 					continue
 				}
